@@ -1,63 +1,122 @@
 #!/usr/bin/env python3
-"""Copies the seeded changes written by the independent agents (/tmp/seed/Cxx/OUT/{A,B}) into
-/verif/seeded/<id>/ and writes meta.json from their meta.txt and from the audit logs
-(/tmp/matrix_*.log, /tmp/audit*.log: lines 'AUDIT <name>: <ID> exit=<rc> ...')."""
+"""Collects the seeded changes written by the independent agents into /verif/seeded/<id>/ with a
+meta.json each, and prints the table of DESIGN.md section 9.5.
+
+Sources: round 1 is already under /verif/seeded/Cxx-V; rounds 2-4 live in the scratch worktrees
+/tmp/seedN/Cxx/OUT/{A,B} while the build session lasts and are copied to /verif/seeded/rN-Cxx-V.
+Audit logs: lines 'AUDIT <name>: <ID> exit=<rc> ...' written by tools/audit.sh. The final lean
+audit (/tmp/m8_*.log, run from a snapshot of the final harness) is authoritative; logs of earlier
+harness revisions are kept as 'earlier_audits'. If no scratch data is present (fresh restore) the
+script only re-reads what is already in /verif/seeded and prints the table from the meta files."""
 import glob, json, os, re, shutil, sys
+
 OUT = "/verif/seeded"
-results = {}   # name -> {check: rc}
-tests = {}
-demo = {}
-for f in sorted(glob.glob("/tmp/matrix_*.log") + glob.glob("/tmp/audit*.log"), key=os.path.getmtime):
-    for line in open(f, errors="replace"):
-        m = re.match(r"AUDIT (\w+): (C\d+) exit=(\d+)", line)
-        if m:
-            name = m.group(1).lstrip("xy")
-            results.setdefault(name, {})[m.group(2)] = int(m.group(3))   # later files override earlier ones
-        m = re.match(r"AUDIT (\w+): tests: (.*)", line)
-        if m:
-            tests[m.group(1).lstrip("xy")] = m.group(2).strip()
-        m = re.match(r"AUDIT (\w+): demo: exit with change=(\d+), without=(\d+)", line)
-        if m:
-            demo[m.group(1).lstrip("xy")] = (int(m.group(2)), int(m.group(3)))
+LINE = re.compile(r"AUDIT (\w+): (C\d+) exit=(\d+)")
+
+
+def parse_logs(files):
+    res, tests, demo = {}, {}, {}
+    for f in sorted(files, key=os.path.getmtime):
+        for line in open(f, errors="replace"):
+            m = LINE.match(line)
+            if m:
+                res.setdefault(m.group(1), {})[m.group(2)] = int(m.group(3))
+            m = re.match(r"AUDIT (\w+): tests: (.*)", line)
+            if m:
+                tests[m.group(1)] = m.group(2).strip()
+            m = re.match(r"AUDIT (\w+): demo: exit with change=(\d+), without=(\d+)", line)
+            if m:
+                demo[m.group(1)] = (int(m.group(2)), int(m.group(3)))
+    return res, tests, demo
+
+
+def norm(name):
+    # x3C09A / y2C05B / r2C01A / C01A (round 1) -> canonical r<N>C<xx><V>
+    name = re.sub(r"^[xy](\d)", r"r\1", name)
+    if re.match(r"^C\d\d[AB]$", name):
+        name = "r1" + name
+    return name
+
+
+final_raw, final_tests, final_demo = parse_logs(glob.glob("/tmp/m8_*.log"))
+early_raw, early_tests, early_demo = parse_logs(
+    glob.glob("/tmp/matrix_*.log") + glob.glob("/tmp/audit*.log") + glob.glob("/tmp/m2_*.log") + glob.glob("/tmp/m3_*.log") + glob.glob("/tmp/m4_*.log") + glob.glob("/tmp/m5_*.log") + glob.glob("/tmp/m6_*.log") + glob.glob("/tmp/x*.log")
+)
+final = {norm(k): v for k, v in final_raw.items()}
+early = {}
+for k, v in early_raw.items():
+    early.setdefault(norm(k), {}).update({c: max(rc == 1, early.get(norm(k), {}).get(c, False)) for c, rc in v.items()})
+tests = {norm(k): v for k, v in {**early_tests, **final_tests}.items()}
+demo = {norm(k): v for k, v in {**early_demo, **final_demo}.items()}
 props = {json.loads(l)["id"]: json.loads(l) for l in open("/verif/properties.jsonl")}
-index = []
-for d in sorted(glob.glob("/tmp/seed/C*/OUT/[AB]")):
-    pid = d.split("/")[3]
-    var = d.split("/")[-1]
-    name = f"{pid}{var}"
-    if not os.path.exists(f"{d}/patch.diff"):
+
+# copy rounds 2-4 from the scratch worktrees
+for rnd in (2, 3, 4):
+    for d in sorted(glob.glob(f"/tmp/seed{rnd}/C*/OUT/[AB]")):
+        pid, var = d.split("/")[3], d.split("/")[-1]
+        if not os.path.exists(f"{d}/patch.diff"):
+            continue
+        dst = f"{OUT}/r{rnd}-{pid}-{var}"
+        os.makedirs(dst, exist_ok=True)
+        for fn in os.listdir(d):
+            p = f"{d}/{fn}"
+            if os.path.isfile(p) and os.path.getsize(p) < 200_000 and not fn.startswith("gram"):
+                shutil.copy(p, f"{dst}/{fn}")
+
+rows = []
+for dst in sorted(glob.glob(f"{OUT}/*")):
+    base = os.path.basename(dst)
+    if not os.path.exists(f"{dst}/patch.diff"):
         continue
-    dst = f"{OUT}/{pid}-{var}"
-    os.makedirs(dst, exist_ok=True)
-    for fn in os.listdir(d):
-        p = f"{d}/{fn}"
-        if os.path.isfile(p) and os.path.getsize(p) < 200_000 and not fn.startswith("gram"):
-            shutil.copy(p, f"{dst}/{fn}")
-    meta_txt = open(f"{d}/meta.txt", errors="replace").read() if os.path.exists(f"{d}/meta.txt") else ""
-    r = results.get(name, {})
-    caught = sorted(k for k, v in r.items() if v == 1)
-    silent = sorted(k for k, v in r.items() if v == 0)
-    other = sorted(k for k, v in r.items() if v not in (0, 1))
-    t = tests.get(name, "")
+    m = re.match(r"^(?:r(\d)-)?(C\d\d)-([AB])$", base)
+    if not m:
+        continue
+    rnd, pid, var = int(m.group(1) or 1), m.group(2), m.group(3)
+    name = f"r{rnd}{pid}{var}"
+    old = json.load(open(f"{dst}/meta.json")) if os.path.exists(f"{dst}/meta.json") else {}
+    meta_txt = open(f"{dst}/meta.txt", errors="replace").read().strip() if os.path.exists(f"{dst}/meta.txt") else old.get("what_it_changes_and_what_it_needs_to_manifest", "")
+    fin = final.get(name)
+    if fin is None and "final_audit" in old:
+        fin = {c: (1 if c in old["final_audit"]["report_a_violation"] else 0) for c in old["final_audit"]["report_a_violation"] + old["final_audit"]["stay_silent"]}
+        for c in old["final_audit"].get("inconclusive", []):
+            fin[c] = 2
+    fin = fin or {}
+    ear = early.get(name, {})
+    if not ear and "earlier_audits_caught_by" in old:
+        ear = {c: True for c in old["earlier_audits_caught_by"]}
+    if not ear and "quick_checks_that_report_a_violation" in old:
+        ear = {c: True for c in old["quick_checks_that_report_a_violation"]}
+    caught = sorted(k for k, v in fin.items() if v == 1)
+    silent = sorted(k for k, v in fin.items() if v == 0)
+    other = sorted(k for k, v in fin.items() if v not in (0, 1))
+    earlier_caught = sorted(k for k, v in ear.items() if v and k not in caught)
+    t = tests.get(name) or old.get("confirmed", {}).get("existing_test_suite_with_change", "")
     dm = demo.get(name)
+    demo_txt = f"demo.sh exits {dm[0]} with the change and {dm[1]} without it" if dm else old.get("confirmed", {}).get("demonstration", "unit-test demonstration (demo_test.rs), confirmed by the agent")
     meta = {
-        "id": f"{pid}-{var}",
+        "id": base,
+        "round": rnd,
         "breaks_property": pid,
         "property_title": props[pid]["title"],
-        "origin": "written by an independent sub-agent that was given only the property text and a scratch worktree of gramlang/gram",
-        "what_it_changes_and_what_it_needs_to_manifest": meta_txt.strip(),
+        "origin": "written by an independent sub-agent that was given only the property text (from round 3 on also one-line descriptions of the changes already tried for that property) and a scratch worktree of gramlang/gram",
+        "what_it_changes_and_what_it_needs_to_manifest": meta_txt,
         "confirmed": {
             "existing_test_suite_with_change": t or "confirmed by the agent (450 passed); not re-run here",
-            "demonstration": (f"demo.sh exits {dm[0]} with the change and {dm[1]} without it" if dm else "unit-test demonstration (demo_test.rs), confirmed by the agent"),
+            "demonstration": demo_txt,
             "how": "tools/audit.sh <patch> <name> <checks...>: scratch worktree of /repo under /tmp, patch applied, `cargo test --workspace --no-fail-fast --offline`, demo.sh against the patched and the unpatched release binary, then `./check <ID> quick` with GRAM_REPO pointing at the scratch tree; worktree and build output removed afterwards",
         },
-        "quick_checks_that_report_a_violation": caught,
-        "quick_checks_that_stay_silent": silent,
-        "quick_checks_inconclusive": other,
+        "final_audit": {"report_a_violation": caught, "stay_silent": silent, "inconclusive": other, "note": "quick tier, harness as committed at the end of the build session (run from a snapshot of /verif); only the own check and a few related ones were run"},
+        "earlier_audits_caught_by": earlier_caught,
         "caught_by_own_property_check": pid in caught,
     }
     json.dump(meta, open(f"{dst}/meta.json", "w"), indent=1, ensure_ascii=False)
-    index.append((f"{pid}-{var}", caught, pid in caught))
-print("seeds:", len(index), " caught by some check:", sum(1 for i in index if i[1]), " by own check:", sum(1 for i in index if i[2]))
-for i in index:
-    print(i[0], "caught by", ",".join(i[1]) or "-")
+    first = re.sub(r"\s+", " ", meta_txt)[:150]
+    rows.append((base, pid, caught, silent, other, earlier_caught, first))
+
+print(f"seeds: {len(rows)}; caught by own check in the final audit: {sum(1 for r in rows if r[1] in r[2])}; caught by some check (final or earlier): {sum(1 for r in rows if r[2] or r[5])}")
+print()
+print("| seeded change | own check (final) | other checks reporting it (final audit) | silent (final audit) | reported in earlier audits only |")
+print("|---|---|---|---|---|")
+for base, pid, caught, silent, other, earlier, first in rows:
+    own = "**caught**" if pid in caught else ("inconclusive" if pid in other else ("missed" if pid in silent else "not run"))
+    print(f"| {base} | {own} | {', '.join(c for c in caught if c != pid) or '-'} | {', '.join(silent) or '-'} | {', '.join(earlier) or '-'} |")
